@@ -640,6 +640,7 @@ class InterpStmts:
             cur = s.frames[fid][0][name]
             if (isinstance(cur, SV) and cur.kind.tag in ("set", "dict", "list")) or isinstance(cur, self.EmptyLit):
                 names.add(name)
+        self._last_havoc_names = set(names) | set(receivers)
         for name in sorted(names):
             fid = s.lookup_frame(name)
             if fid is None:
@@ -826,6 +827,21 @@ class InterpStmts:
         else:
             sh.pc.append(z3.And(done.tree >= 0, done.tree <= spec.length))
         env_extra = {"done": done, **self.loop_ghost(spec)}
+        # loop-constant facts: proved once at loop entry, then available at the loop head and after the loop without a step
+        # obligation.  Sound only if the loop cannot change what they talk about: every name occurring in a fact must be neither
+        # assigned nor mutated (as a receiver) in the body, and must not be the root of an entry of the loop's `modifies` clause,
+        # which has to be given explicitly (otherwise the loop's heap effect is unknown)
+        for fi, fact in enumerate(lc.get("facts") or []):
+            if "modifies" not in lc:
+                raise Unsupported("loop `facts` need an explicit `modifies` clause on the loop")
+            fnames = {n.id for n in ast.walk(self.cset.parse_expr(fact)) if isinstance(n, ast.Name)}
+            roots = {m.split(".")[0].split("[")[0] for m in (lc.get("modifies") or [])}
+            clash = fnames & (set(getattr(self, "_last_havoc_names", set())) | roots | {"done"})
+            if clash:
+                raise Unsupported("loop fact %r mentions names the loop may change: %s" % (fact[:60], sorted(clash)))
+            g0 = self.eval_spec(fact, s_entry, {})
+            self.emit(st, "inv-entry", "%s.fact[%d]" % (label, fi), g0)
+            sh.pc.append(self.eval_spec(fact, sh, {}))
         for inv in invs:
             sh.pc.append(self.eval_spec(inv, sh, env_extra))
         loop_mods = lc.get("modifies")
@@ -844,10 +860,12 @@ class InterpStmts:
             done_next = SV(INT, done.tree + 1)
         sb = sb.note("%s body" % label)
         if self.feasible(sb):
+            n_body_paths = 0
             for s1 in self.assign(stmt.target, elem, sb):
                 s1 = s1.copy()
                 s1.iter0 = s1.copy()        # start of this iteration (visible to inner loops as at_iter())
                 for tag, s2, payload in self.exec_block(stmt.body, s1):
+                    n_body_paths += 1
                     if tag in ("next", "continue"):
                         if ghost_step:
                             if spec.mode != "set":
@@ -883,6 +901,9 @@ class InterpStmts:
                         s3 = s2.copy()
                         s3.modstack = st.modstack
                         yield (tag, s3, payload)
+            if n_body_paths == 0:
+                # the body can be entered but no path through it survives: an inner loop exit or a call contract is contradictory
+                self.__dict__.setdefault("vacuous_exits", []).append("%s/%s body (no path reaches its end)" % (self.ob_prefix, label))
         # ---- exit
         if spec.mode == "set":
             sx = sh.assume(done.tree == spec.mem)
